@@ -6,27 +6,6 @@ From V Require Import Base.Res Base.Word Base.MachInt gen.GenConsts gen.GenFormu
   Spec.Tree Model.Platform Model.RsChunk Model.RsHasher Model.RsIo Proofs.FormulasP.
 Open Scope N_scope.
 
-Inductive copy_end := EndEof | EndErr (kind : N) | EndFuel.
-
-(* what the reader yields, independently of the hasher: the pieces handed to update, in
-   order, and how the loop ends *)
-Fixpoint delivered (fuel : nat) (data : list N) (script : list read_item) : list (list N) * copy_end :=
-  match fuel with
-  | O => ([], EndFuel)
-  | S fuel' =>
-      let '(item, script') := match script with [] => (RDeliver rs_COPY_BUF, []) | it :: tl => (it, tl) end in
-      match item with
-      | RInterrupted => delivered fuel' data script'
-      | RError k => ([], EndErr k)
-      | RZero => ([], EndEof)
-      | RDeliver n =>
-          let k := N.min (N.min n rs_COPY_BUF) (nlen data) in
-          if k =? 0 then ([], EndEof)
-          else let '(ps, e) := delivered fuel' (skipn (N.to_nat k) data) script' in
-               (firstn (N.to_nat k) data :: ps, e)
-      end
-  end.
-
 Fixpoint updates (p : platform) (h : hasher) (pieces : list (list N)) : res hasher :=
   match pieces with
   | [] => Ok h
